@@ -409,6 +409,58 @@ def rule_value(repo: Repo, rid: str = "C05.value", spec: str = "ProblemParser.pa
     return r
 
 
+def rule_trailingtype(repo: Repo, rid: str = "C05.trailingtype") -> RuleResult:
+    """objects listed after the last '- type' have no declared type: they are objects of the root type `object`, whatever groups came
+    before them -- the type used for what is flushed AFTER the token loop is looked up by the constant 'object', not by a token"""
+    r = RuleResult(rid, "the untyped tail of (:objects ...) gets the root type 'object' (looked up by that constant)",
+                   "the problem declares exactly the source's objects with their types")
+    f = L.fn(repo, "ProblemParser.parse_objects")
+    p = L.prov(repo, f)
+    g = C.cfg_of(f.node)
+    loops = [n for n in ast.walk(f.node) if isinstance(n, (ast.For, ast.While))]
+    tops = [lp for lp in loops if not any(lp is not o and any(x is lp for x in ast.walk(o)) for o in loops)]
+    init = repo.find_method("PDDLObject", "__init__")
+    ctors = [c for c in L.calls_in(f.node) if callee_name(c) == "PDDLObject" and isinstance(c.func, ast.Name)]
+    live = L.Guards(f, lambda e: None).reach({})
+    tail = []
+    for c in ctors:
+        n = g.node_containing(c)
+        if n is None or n not in live:
+            continue
+        # outside the token loop: nested loops over the collected names (or comprehensions) do not count as the token loop
+        token_loops = [lp for lp in tops if any("param:" in x[0] and not any(s_.startswith("in:") for s_ in x) for x in _safe_trace(p, lp.iter if isinstance(lp, ast.For) else lp.test))
+                       or isinstance(lp, ast.While)]
+        if any(any(x is c for x in ast.walk(lp)) for lp in token_loops):
+            continue
+        tail.append(c)
+    r.site(f.qn + " [untyped tail]")
+    if not tail:
+        raise AnalysisError("parse_objects: no PDDLObject construction after the token loop (the flush of the untyped tail) was found")
+    bad = None
+    for c in tail:
+        t = L.arg_of(c, init, "type", 1)
+        if t is None:
+            continue
+        tr = p.trace(t, keys=True)
+        keys = [x for x in tr if "askey" in x]
+        by_constant = any("item:'object'" in x for x in tr) or any(x[0] == "const:'object'" for x in keys)
+        if any(x[0].startswith("param:") for x in keys) or not by_constant:
+            bad = (c, sorted(keys)[:3])
+    if bad:
+        r.fail(Finding(rid, f, "tail-type", f"the type of the objects after the last '- type' is looked up by {bad[1]}: they can inherit the type of an earlier "
+                       f"group instead of 'object'", node=bad[0]))
+    else:
+        r.ok({"untyped_tail": "domain.types['object']"})
+    return r
+
+
+def _safe_trace(p, e):
+    try:
+        return p.trace(e)
+    except KeyError:
+        return set()
+
+
 def rules(repo: Repo, tier: str) -> List[RuleResult]:
     return [
         rule_validators(repo),
@@ -418,6 +470,7 @@ def rules(repo: Repo, tier: str) -> List[RuleResult]:
         rule_sections(repo),
         c01.rule_leftover(repo, "C05.leftover", ["ProblemParser.parse_objects"]),
         c01.rule_typedlist(repo, "C05.typedlist", ["ProblemParser.parse_objects"]),
+        rule_trailingtype(repo),
         c06.rule_direction(repo, "C05.direction"),
         rule_goal(repo),
         rule_value(repo),
